@@ -159,14 +159,20 @@ def run_preset(ctx, pt):
     """non-initial state: chaining value and bit counter preset, so that t crosses the word boundary"""
     from crysp.blake import Blake
     n, c0, ln = pt
-    o = Blake(n)
-    o.initstate()
-    h0 = [(x * 3 + 1) & o.H.mask for x in o.H.ival]
-    o.H.ival[:] = h0
-    o.padmethod.bitcnt = c0
-    m = ramp(ln, 3, 1)
-    r = ctx.attempt(lambda: o.update(m, padding=True))
-    ctx.eq('C11/blake%d/counter-beyond-one-word' % n, r, ('ok', RB.blake(n, m, None, 0, h0=h0, t0=c0)))
+    for variant in (0, 1, 2):
+        o = Blake(n)
+        o.initstate()
+        h0 = [(x * 3 + 1) & o.H.mask for x in o.H.ival]
+        if variant == 1:
+            h0 = [h0[0]] * 8                      # chaining words that all coincide
+        elif variant == 2:
+            h0 = h0[:4] + h0[:4]                  # H[i] == H[i+4]
+        o.H.ival[:] = h0
+        o.padmethod.bitcnt = c0
+        m = ramp(ln, 3, 1)
+        r = ctx.attempt(lambda: o.update(m, padding=True))
+        ctx.eq('C11/blake%d/%s' % (n, 'counter-beyond-one-word' if variant == 0 else 'chaining-value-with-coinciding-words'), r,
+               ('ok', RB.blake(n, m, None, 0, h0=h0, t0=c0)))
 
 
 def pts_stream_salt(tier):
